@@ -96,6 +96,7 @@ type op struct {
 	sem  *Sem
 	wg   *WGState
 	obj  int
+	wn   int // KWrite: number of bytes
 }
 
 type result struct {
@@ -563,6 +564,8 @@ func (e *Exec) canFire(g *G) bool {
 		return false
 	case KRead:
 		return o.st.readable()
+	case KWrite:
+		return !o.st.stalled(o.wn)
 	case KSemAcq:
 		return o.sem.n > 0
 	case KWgWait:
